@@ -421,15 +421,15 @@ Proof.
 Qed.
 
 (* the addressed pixels: new value = upd_px (source pixel) (old value) *)
-Lemma update_rect_lemma src buf iy ix by_ bx out :
+Lemma update_rect_gen u src buf iy ix by_ bx out :
   0 <= ih buf -> 0 <= iw buf ->
-  update_into src buf iy ix by_ bx = Some out ->
+  update_into_gen u src buf iy ix by_ bx = Some out ->
   forall p q r c sr sc,
     selects (ih buf) by_ p r -> selects (iw buf) bx q c ->
     selects (ih src) iy p sr -> selects (iw src) ix q sc ->
-    ipx out r c = upd_px (imode src) (ipx src sr sc) (ipx buf r c).
+    ipx out r c = u (imode src) (ipx src sr sc) (ipx buf r c).
 Proof.
-  intros Hbh Hbw. unfold update_into, update_into_gen.
+  intros Hbh Hbw. unfold update_into_gen.
   destruct (rects src buf iy ix by_ bx) as [[[[vy vx] wy] wx]|] eqn:ER; [|discriminate].
   intros H; injection H as <-. cbn [ipx].
   destruct (rects_some _ _ _ _ _ _ _ _ _ _ ER) as (Ey & Ex & Fy & Fx & Cy & Cx & Em).
@@ -440,6 +440,15 @@ Proof.
   rewrite Ey in E3; injection E3 as <-. rewrite Ex in E4; injection E4 as <-.
   rewrite (view_inv_at wy p Sy Hp), (view_inv_at wx q Sx Hq). reflexivity.
 Qed.
+
+Lemma update_rect_lemma src buf iy ix by_ bx out :
+  0 <= ih buf -> 0 <= iw buf ->
+  update_into src buf iy ix by_ bx = Some out ->
+  forall p q r c sr sc,
+    selects (ih buf) by_ p r -> selects (iw buf) bx q c ->
+    selects (ih src) iy p sr -> selects (iw src) ix q sc ->
+    ipx out r c = upd_px (imode src) (ipx src sr sc) (ipx buf r c).
+Proof. exact (update_rect_gen upd_px src buf iy ix by_ bx out). Qed.
 
 (* pixel-level facts about upd_px *)
 Lemma upd_px_invalid m s o :
@@ -945,3 +954,40 @@ Lemma update_fixed_agrees_lemma :
   (forall m a b, is_int_mode m = true ->
                  upd_px_fixed m (PxI a) (PxI 0) = PxI a /\ upd_px_fixed m (PxI 0) (PxI b) = PxI b).
 Proof. split; [exact upd_px_fixed_agrees | exact upd_px_fixed_zero]. Qed.
+
+(* The code in /repo carries the repaired integer rule (upd_px_fixed, commit a186b8b); on
+   non-negative data -- the data the C15 statement speaks about -- a whole update with it gives
+   exactly the image the np.maximum rule gives, so the update theorems above hold of it. *)
+Lemma update_fixed_agrees_img src buf iy ix by_ bx :
+  (forall r c, nonneg_px (ipx src r c)) -> (forall r c, nonneg_px (ipx buf r c)) ->
+  match update_into_fixed src buf iy ix by_ bx, update_into src buf iy ix by_ bx with
+  | Some o', Some o => ih o' = ih o /\ iw o' = iw o /\ imode o' = imode o /\
+                       forall r c, ipx o' r c = ipx o r c
+  | None, None => True
+  | _, _ => False
+  end.
+Proof.
+  intros Hs Hb. unfold update_into_fixed, update_into, update_into_gen.
+  destruct (rects src buf iy ix by_ bx) as [[[[vy vx] wy] wx]|]; [|exact I].
+  repeat split. intros r c. cbn [ipx].
+  destruct (view_inv wy r); [destruct (view_inv wx c)|]; try reflexivity.
+  apply upd_px_fixed_agrees; [apply Hs|apply Hb].
+Qed.
+
+(* ... and in general (signed data included) its integer rule is: a zero buffer pixel takes the
+   source, a zero source leaves the buffer alone, two non-zero values keep the larger *)
+Lemma update_int_fixed_lemma src buf out iy ix by_ bx :
+  0 <= ih buf -> 0 <= iw buf ->
+  update_into_fixed src buf iy ix by_ bx = Some out ->
+  forall p q r c sr sc,
+    selects (ih buf) by_ p r -> selects (iw buf) bx q c ->
+    selects (ih src) iy p sr -> selects (iw src) ix q sc ->
+    forall a b, is_int_mode (imode src) = true -> ipx src sr sc = PxI a -> ipx buf r c = PxI b ->
+                ipx out r c = PxI (if (b =? 0) || (negb (a =? 0) && (b <? a)) then a else b).
+Proof.
+  intros Hbh Hbw Hupd p q r c sr sc Hr Hc Hsr Hsc a b Hi Ha Hb.
+  unfold update_into_fixed in Hupd.
+  rewrite (update_rect_gen upd_px_fixed _ _ _ _ _ _ _ Hbh Hbw Hupd p q r c sr sc Hr Hc Hsr Hsc).
+  rewrite Ha, Hb. destruct (imode src); try discriminate; cbn [upd_px_fixed];
+    destruct ((b =? 0) || (negb (a =? 0) && (b <? a))); reflexivity.
+Qed.
